@@ -710,6 +710,97 @@ theorem C08_restrict_numa_exists (t : Topo) (flagsT : Nat) (s : CSet) (flags : N
   obtain ⟨y, hy, e⟩ := (cnt_pos_iff ident (ident x) _).1 hfind
   exact ⟨y, hy, by have := congrArg RObj.type e; exact this.trans hxt⟩
 
+/-! ### A8: everything from `WF d` alone -/
+
+/-- the 12 object-level and 9 topology-level WF clauses that are PROVED for the topology after any restrict call -/
+def provedObjClauses : List String :=
+  ["id-is-position", "root-or-parent", "parent-kind", "normal-child-slot", "children-array", "special-list-heads",
+   "special-list-links", "no-children-where-forbidden", "children-counts", "depth-by-type", "depth-increases", "in-its-level"]
+def provedTopClauses : List String :=
+  ["nobjs", "levels-listed", "level-entries-valid", "levels-in-tree-order", "normal-levels-nonempty", "depth-le-objects",
+   "level0-is-root", "root-is-machine", "machine-only-at-root"]
+
+/-- **C08_restrict_from_wf_partial** — the summary statement, with NO hypothesis besides `WF d` (plus: the engine could rebuild a
+    tree, and the API fact that PU / Machine are not filtered KEEP_STRUCTURE).  For every set and every flag word, with `T` the
+    topology of the dump and `R` the model's result:
+    (a) `R` satisfies again every tree hypothesis (SetsOK, typing, PUs are leaves, Machine root, mergeSafe, one Machine), so the
+        statement applies to the next call too;
+    (b) the rendered result satisfies 12 object-level and 9 topology-level clauses of `WF` (`provedObjClauses`, `provedTopClauses`);
+    (c) after a successful call by cpuset the PUs are exactly the previous PUs with os_index ∈ S, each still a singleton, and a
+        NUMA node disappears only under REMOVE_CPULESS when CPU-less afterwards; by nodeset the mirror statements — all through
+        level merging.
+    `_partial`: the full `WF (afterDump …)` is not reached, see C08_restrict_wf_partial for the list of unproved clauses. -/
+theorem C08_restrict_from_wf_partial (d : Dump) (h : WF d) (t : Tree) (ht : treeOf d = .ok t)
+    (hf1 : filterOf d.filters tPU ≠ filterKeepStructure) (hf2 : filterOf d.filters tMACHINE ≠ filterKeepStructure)
+    (s : CSet) (flags : Nat) (ex : RObj → Extra) :
+    let T : Topo := { tree := t, allowedCpu := d.allowedCpuset.getD 0, allowedNode := d.allowedNodeset.getD 0, filters := d.filters }
+    let R := (restrict T s flags).1
+    let D := afterDump T d.flags s flags ex
+    (okT R.tree = true ∧ typedT R.tree = true ∧ puLeafT R.tree = true ∧ R.tree.obj.type = tMACHINE ∧ mergeSafe R ∧ machineOnce R.tree) ∧
+    (∀ c ∈ provedObjClauses, ∀ o ∈ D.objs, objClause c D (mkAux D) o = true) ∧
+    (∀ c ∈ provedTopClauses, topClause c D (mkAux D) = true) ∧
+    (∀ p, plan T s flags = some p → (restrict T s flags).2 = .ok →
+      (p.byNode = false →
+        (∀ x ∈ objsT R.tree, x.type = tPU → x.cpuset = osBit x ∧ x.ccpuset = osBit x ∧ s.mem x.osidx.toNat = true) ∧
+        (∀ a : RObj, a.type = tPU → cnt ident (ident a) (objsT R.tree) =
+            if s.mem a.osidx.toNat = true then cnt ident (ident a) (objsT t) else 0) ∧
+        (∀ a : RObj, a.type = tNUMA →
+            cnt ident (ident a) ((objsT t).filter (fun o => o.type == tNUMA && !(p.rmExempt && (shrinkG p o).cpuset == 0))) ≤
+              cnt ident (ident a) (objsT R.tree))) ∧
+      (p.byNode = true →
+        (∀ x ∈ objsT R.tree, x.type = tNUMA → x.nodeset = osBit x ∧ x.cnodeset = osBit x ∧ s.mem x.osidx.toNat = true) ∧
+        (∀ a : RObj, a.type = tNUMA → cnt ident (ident a) (objsT R.tree) =
+            if s.mem a.osidx.toNat = true then cnt ident (ident a) (objsT t) else 0) ∧
+        (∀ a : RObj, a.type = tPU →
+            cnt ident (ident a) ((objsT t).filter (fun o => o.type == tPU && !(p.rmExempt && (shrinkG p o).nodeset == 0))) ≤
+              cnt ident (ident a) (objsT R.tree)))) := by
+  intro T R D
+  obtain ⟨hok, hty, hm, hr, hleaf, hpus, hnumas⟩ := wf_treeOf_full h t ht
+  obtain ⟨_, h1m, hsafe⟩ := C08_wf_mergeSafe d h t ht (d.allowedCpuset.getD 0) (d.allowedNodeset.getD 0) hf1 hf2
+  have a1 := C08_restrict_preserves_typing T s flags hok hty hr
+  have a2 := restrict_leaf_root T s flags hty hr hleaf hsafe
+  have hm' : R.tree.obj.type = tMACHINE := by
+    have := congrArg RObj.type a2.2.1; exact this.trans hm
+  have links := fun o ho => C08_restrict_links T d.flags s flags ex hty hr o ho
+  have levels := C08_restrict_levels T d.flags s flags ex hty hr
+  have part := C08_restrict_wf_partial T d.flags s flags ex hty hm hleaf hsafe h1m
+  refine ⟨⟨a1.1, a1.2.1, a2.1, hm', a2.2.2, machineOnce_restrict T s flags h1m⟩, ?_, ?_, ?_⟩
+  · intro c hc o ho
+    simp only [provedObjClauses, List.mem_cons, List.mem_nil_iff, or_false] at hc
+    rcases hc with rfl | rfl | rfl | rfl | rfl | rfl | rfl | rfl | rfl | rfl | rfl | rfl
+    · exact (links o ho).1
+    · exact (links o ho).2.1
+    · exact (links o ho).2.2.1
+    · exact (links o ho).2.2.2.1
+    · exact (links o ho).2.2.2.2.1
+    · exact (links o ho).2.2.2.2.2.1
+    · exact (links o ho).2.2.2.2.2.2
+    · exact (part.1 o ho).1
+    · exact (part.1 o ho).2
+    · exact (levels.1 o ho).1
+    · exact (levels.1 o ho).2.1
+    · exact (levels.1 o ho).2.2
+  · intro c hc
+    simp only [provedTopClauses, List.mem_cons, List.mem_nil_iff, or_false] at hc
+    rcases hc with rfl | rfl | rfl | rfl | rfl | rfl | rfl | rfl | rfl
+    · exact levels.2.1
+    · exact levels.2.2.1
+    · exact levels.2.2.2.1
+    · exact levels.2.2.2.2.1
+    · exact levels.2.2.2.2.2.1
+    · exact levels.2.2.2.2.2.2.1
+    · exact part.2.2.1
+    · exact part.2.1
+    · exact part.2.2.2
+  · intro p hp hret
+    constructor
+    · intro hb
+      have e := pus_exact_whole T s flags p hp hb hret hok hty hr hleaf hpus hsafe
+      exact ⟨e.1, e.2, fun a ha => numa_survive_whole T s flags p hp hb hret hty hr a ha⟩
+    · intro hb
+      have e := numas_exact_whole T s flags p hp hb hret hok hty hr hnumas
+      exact ⟨e.1, e.2, fun a ha => pu_survive_whole T s flags p hp hb hret hty hr hleaf hsafe a ha⟩
+
 /-! ### non-vacuity and the reorder-without-removal case -/
 
 /-- Machine [Core{PU2} (complete {0,2}), Core{PU1} (complete {1,3})] + one NUMA node; PUs 0 and 3 are offline -/
@@ -764,5 +855,12 @@ example : mergeSafe demo ∧ mergeSafe demoMerge ∧ machineOnce demoMerge.tree 
 example : ((objsT (restrict demoMerge ⟨1, false⟩ (flagByNodeset ||| flagRemoveMemless)).1.tree).filter (fun o => o.type == tPU)).map (·.osidx) = [0] ∧
     (objsT (restrict demoMerge ⟨1, false⟩ (flagByNodeset ||| flagRemoveMemless)).1.tree).length + 7 = (objsT demoMerge.tree).length := by
   decide +kernel
+
+/-- non-vacuity of C08_restrict_from_wf_partial: all its hypotheses hold for `demoDump` (WF and the filter facts: above) -/
+example : ∃ t, treeOf demoDump = .ok t := by
+  have h : (match treeOf demoDump with | .ok _ => true | .error _ => false) = true := by decide +kernel
+  cases hh : treeOf demoDump with
+  | ok t => exact ⟨t, rfl⟩
+  | error e => rw [hh] at h; cases h
 
 end Hw.Props.C08
